@@ -1287,7 +1287,9 @@ class DNA(symbolic.Object):
       elif len(self.children) == 1:
         child = self.children[0].to_numbers(flatten)
         if isinstance(child, tuple):
-          return tuple([self.value, list(child)])
+          # A chain of conditional choices is one flat tuple, which is what
+          # `DNA.parse` reads back (a list would mean sibling decisions).
+          return (self.value,) + child
         else:
           return (self.value, child)
       else:
